@@ -87,6 +87,10 @@ video_sink_thread(struct video_sink_s* const self)
 Error:
     LOGE("[stream %d]: SINK: Exiting thread (Error)", self->stream_id);
     self->sig_stop_source(self);
+    // Nobody consumes this queue any more. Refuse writes so that a producer
+    // asleep on a full queue wakes up and sees the stop signal; acquire_stop
+    // re-enables writes once the threads are joined.
+    channel_accept_writes(&self->in, 0);
     channel_read_unmap(&self->in, &self->reader, 0);
     storage_stop(self->storage);
     self->is_running = 0;
